@@ -106,6 +106,15 @@ func runNotif(seed int64, histories, steps int, out *Emitter) {
 				{Name: "broken", Tld: "jkl", Expires: 1 << 40, Value: "not-an-address", Data: "{}", Subdomains: []*rnstypes.Names{}},
 			}
 			gs[rnstypes.ModuleName] = a.AppCodec().MustMarshalJSON(g)
+			if hi%3 == 2 {
+				// more notifications (and a few block entries) than one listing page holds
+				ng := notiftypes.DefaultGenesis()
+				for n := 0; n < 118; n++ {
+					ng.Notifications = append(ng.Notifications, notiftypes.Notification{To: users[n%3].String(), From: users[3].String(), Time: int64(1_600_000_000_000_000 + n), Contents: fmt.Sprintf("{\"seeded\":%d}", n)})
+				}
+				ng.Blocks = append(ng.Blocks, notiftypes.Block{Address: users[2].String(), BlockedAddress: users[3].String()})
+				gs[notiftypes.ModuleName] = a.AppCodec().MustMarshalJSON(ng)
+			}
 		}
 		c := NewChain(4, []string{"ujkl"}, mut)
 		actors := []string{}
